@@ -696,10 +696,15 @@ impl World {
             let cm = self.a.krill.ca_manager();
             let ca = cm.get_ca(&CaHandle::from_str(p).ok()?).ok()?;
             let d = ca.get_child(&ChildHandle::from_str(c).ok()?).ok()?;
-            let mut ks: Vec<KeyIdentifier> = d.used_keys.iter()
+            let ks: Vec<KeyIdentifier> = d.used_keys.iter()
                 .filter(|(_, s)| matches!(s, UsedKeyState::InUse(_))).map(|(k, _)| *k).collect();
-            ks.sort_by_key(|k| k.to_string());
-            return ks.first().copied();
+            // deterministic choice: the key whose token is the oldest (tokens are handed out by first appearance)
+            let mut tk: Vec<(u64, KeyIdentifier)> = ks.iter().map(|k| {
+                let t = self.a.canon.key(&k.to_string());
+                (t[1..].parse::<u64>().unwrap_or(u64::MAX), *k)
+            }).collect();
+            tk.sort_by_key(|x| x.0);
+            return tk.first().map(|x| x.1);
         }
         Some(self.named_key(label))
     }
